@@ -83,24 +83,36 @@ class RunResult:
 
 
 def run_proc(cmd, cwd=None, env=None, timeout=300, input=None, binary=False):
-    """Run a process in its own session; on timeout kill the whole group."""
+    """Run a process in its own session.  Output goes to temporary files, so that orphaned grand-children (a step script that
+    outlives a killed bob, forkserver helpers) can never block us on an open pipe; once the process itself has exited (or the
+    timeout hit) the whole process group is killed."""
     t0 = time.monotonic()
+    fo = tempfile.TemporaryFile(); fe = tempfile.TemporaryFile()
     p = subprocess.Popen(cmd, cwd=cwd, env=env, stdin=subprocess.PIPE if input is not None else subprocess.DEVNULL,
-                         stdout=subprocess.PIPE, stderr=subprocess.PIPE, start_new_session=True,
-                         text=not binary)
+                         stdout=fo, stderr=fe, start_new_session=True)
     timed_out = False
     try:
-        out, err = p.communicate(input=input, timeout=timeout)
-    except subprocess.TimeoutExpired:
-        timed_out = True
+        if input is not None:
+            try:
+                p.stdin.write(input if binary else input.encode())
+                p.stdin.close()
+            except BrokenPipeError:
+                pass
+        try:
+            p.wait(timeout=timeout)
+        except subprocess.TimeoutExpired:
+            timed_out = True
+    finally:
         kill_group(p.pid)
         try:
-            out, err = p.communicate(timeout=10)
+            p.wait(timeout=10)
         except Exception:
-            out, err = ("", "") if not binary else (b"", b"")
-    finally:
-        # reap stragglers of the session (forkserver / resource tracker of a killed bob)
-        kill_group(p.pid)
+            pass
+    fo.seek(0); fe.seek(0)
+    out, err = fo.read(), fe.read()
+    fo.close(); fe.close()
+    if not binary:
+        out, err = out.decode("utf-8", "replace"), err.decode("utf-8", "replace")
     return RunResult(p.returncode, out, err, timed_out, time.monotonic() - t0)
 
 
